@@ -18,13 +18,26 @@ fn ev(k: i64) -> Ev {
     if k % 2 == 0 { Ev { k, typ: "a".into(), ctx: "c0".into() } } else { Ev { k, typ: "b".into(), ctx: "c1".into() } }
 }
 
-fn read_suite() -> Vec<String> {
+/// LIMIT used by the bounded reads of a type of which `n` events are applied: (exactly n, one less)
+fn limits(n: usize) -> (usize, usize) {
+    (n.max(1), n.saturating_sub(1).max(1))
+}
+
+fn read_suite(acked: &[Ev]) -> Vec<String> {
     let mut q = suite(&TYPES, &CTXS);
     q.push("QUERY a WHERE k >= 1".into());
     q.push("QUERY b WHERE k >= 1".into());
     // the NOT path enumerates zones differently (complement over the plan's segment list)
     q.push("QUERY a WHERE NOT k = -1".into());
     q.push("QUERY b WHERE NOT k = -1".into());
+    // bounded reads: a LIMIT equal to (one less than) the number of applied events makes the
+    // per-source accounting of memtable, passive buffers and segments observable
+    for t in TYPES {
+        let n = acked.iter().filter(|e| e.typ == t).count();
+        let (full, less) = limits(n);
+        q.push(format!("QUERY {t} LIMIT {full}"));
+        q.push(format!("QUERY {t} LIMIT {less}"));
+    }
     q
 }
 
@@ -68,7 +81,7 @@ fn build(s: &Schedule) -> Built {
         ops.push(Op::CompactAll);
     }
     observes.push((ops.len(), acked.clone(), "before"));
-    ops.push(Op::Observe { queries: read_suite() });
+    ops.push(Op::Observe { queries: read_suite(&acked) });
     for p in [&s.park1, &s.park2].into_iter().flatten() {
         ops.push(Op::Park { gate: p.0.clone(), shard: p.1, seg: Some(p.2), nth: p.3 });
     }
@@ -86,7 +99,7 @@ fn build(s: &Schedule) -> Built {
         acked.push(e);
     }
     observes.push((ops.len(), acked.clone(), "parked"));
-    ops.push(Op::Observe { queries: read_suite() });
+    ops.push(Op::Observe { queries: read_suite(&acked) });
     for _ in 0..s.extra {
         let e = ev(k);
         k += 1;
@@ -96,21 +109,21 @@ fn build(s: &Schedule) -> Built {
         ops.push(if s.park1.is_some() { Op::CmdNb { text: e.store_cmd() } } else { Op::Cmd { text: e.store_cmd() } });
         acked.push(e);
         observes.push((ops.len(), acked.clone(), "parked+store"));
-        ops.push(Op::Observe { queries: read_suite() });
+        ops.push(Op::Observe { queries: read_suite(&acked) });
     }
     if s.park1.is_some() {
         ops.push(Op::Resume);
         observes.push((ops.len(), acked.clone(), if s.park2.is_some() { "second-park" } else { "resumed" }));
-        ops.push(Op::Observe { queries: read_suite() });
+        ops.push(Op::Observe { queries: read_suite(&acked) });
     }
     if s.park2.is_some() {
         ops.push(Op::Resume);
         observes.push((ops.len(), acked.clone(), "resumed"));
-        ops.push(Op::Observe { queries: read_suite() });
+        ops.push(Op::Observe { queries: read_suite(&acked) });
     }
     ops.push(Op::Barrier);
     observes.push((ops.len(), acked.clone(), "final"));
-    ops.push(Op::Observe { queries: read_suite() });
+    ops.push(Op::Observe { queries: read_suite(&acked) });
     Built { ops, observes, trigger_op }
 }
 
@@ -255,6 +268,28 @@ fn judge(s: &Schedule, b: &Built, r: &JobResult) -> (Vec<Finding>, usize, BTreeS
             gotn.sort();
             if let Some(k) = sel_verdict(&gotn, &want) {
                 out.push(Finding { schedule: s.clone(), stage: stage.to_string(), what: format!("QUERY {t} WHERE NOT k = -1 returned {gotn:?}, applied events are {want:?}"), known: k });
+            }
+            let (full, less) = limits(want.len());
+            for (slot, lim) in [(10 + 2 * ti, full), (11 + 2 * ti, less)] {
+                let Some(repl) = step.replies.get(slot) else { continue };
+                let mut gotl: Vec<i64> = repl.rows.iter().filter_map(|row| row.get("k").and_then(|v| v.as_i64())).collect();
+                gotl.sort();
+                if lim >= want.len() {
+                    if let Some(k) = sel_verdict(&gotl, &want) {
+                        out.push(Finding { schedule: s.clone(), stage: stage.to_string(), what: format!("QUERY {t} LIMIT {lim} returned {gotl:?}, applied events are {want:?}"), known: k });
+                    }
+                } else {
+                    // exactly `lim` distinct applied events
+                    let mut d = gotl.clone();
+                    d.dedup();
+                    let fine = d.len() == gotl.len() && gotl.iter().all(|k| want.contains(k)) && gotl.len() == lim;
+                    if !fine {
+                        // the listed hiding defect can leave fewer than `lim` rows visible
+                        let must_t = want.iter().filter(|k| al.must.contains(k)).count();
+                        let known = if al.hide_active && d.len() == gotl.len() && gotl.iter().all(|k| want.contains(k)) && gotl.len() >= lim.min(must_t) && gotl.len() <= lim { Some("KF-inflight-hides-segments".to_string()) } else { None };
+                        out.push(Finding { schedule: s.clone(), stage: stage.to_string(), what: format!("QUERY {t} LIMIT {lim} returned {gotl:?}; {} events of that type are applied: {want:?}", want.len()), known });
+                    }
+                }
             }
             let c = o.count.get(*t).copied().unwrap_or(0) as usize;
             if c != want.len() {
